@@ -73,29 +73,39 @@ GDelete(s, tag, refs, nf) ==
   LET r == DelFold(s, tag, refs, nf, <<>>)
   IN {Ok(r[1], r[2])} \cup (IF r[2] # <<>> THEN {Err(s)} ELSE {})
 
-(* the carried elements whose id is not yet present (and not repeated)    *)
+(* carried elements by index: those whose id is not yet present in s      *)
+(* (ids in `except` do not count as present), and among them the first    *)
+(* occurrence of each id inside the message                               *)
+NotPresentIdx(s, tag, new, except) ==
+  { i \in DOMAIN new : new[i].id \notin (IdSet(s, tag) \ except) }
 FreshIdx(s, tag, new, except) ==
-  { i \in DOMAIN new : /\ new[i].id \notin (IdSet(s, tag) \ except)
-                       /\ \A j \in 1..(i-1) : new[j].id # new[i].id }
+  { i \in NotPresentIdx(s, tag, new, except) : \A j \in 1..(i-1) : new[j].id # new[i].id }
+
+(* What may be done with the carried elements `new`, given which of them  *)
+(* duplicate an element already there (must be skipped with one           *)
+(* DuplicateStoryWarning each when the class de-duplicates) and which     *)
+(* merely repeat an id inside the message itself (no property says        *)
+(* whether such a repeat is inserted or skipped with a warning).          *)
+(* Place(xs) builds the resulting sequence from the elements kept.        *)
+DupChoices(s, tag, new, except, dedupe, Place(_)) ==
+  LET np == NotPresentIdx(s, tag, new, except)
+      fr == FreshIdx(s, tag, new, except)
+      keepNP == PickIdx(new, np, 1)
+      keepFR == PickIdx(new, fr, 1)
+  IN IF Cardinality(fr) = Len(new) THEN {Ok(Place(new), <<>>)}
+     ELSE {Ok(Place(keepNP), Rep(Len(new) - Len(keepNP), DUP)),
+           Ok(Place(keepFR), Rep(Len(new) - Len(keepFR), DUP)),
+           Err(s)}
+          \cup (IF dedupe THEN {} ELSE {Ok(Place(new), <<>>)})
 
 (* insert `new` so that new[1] lands at index pos (Len(s)+1 = end)         *)
 GInsert(s, tag, pos, new, dedupe) ==
-  LET fresh == FreshIdx(s, tag, new, {})
-      nd    == PickIdx(new, fresh, 1)
-      d     == Len(new) - Len(nd)
-  IN IF d = 0 THEN {Ok(InsertAt(s, pos, new), <<>>)}
-     ELSE IF dedupe
-          THEN {Ok(InsertAt(s, pos, nd), Rep(d, DUP)), Err(s)}
-          ELSE {Ok(InsertAt(s, pos, new), <<>>), Ok(InsertAt(s, pos, nd), Rep(d, DUP)), Err(s)}
+  DupChoices(s, tag, new, {}, dedupe, LAMBDA xs : InsertAt(s, pos, xs))
 
 (* replace the element at index t by `new` (in order, at t's position)    *)
 GReplace(s, tag, t, new) ==
-  LET fresh == FreshIdx(s, tag, new, {s[t].id})
-      nd    == PickIdx(new, fresh, 1)
-      d     == Len(new) - Len(nd)
-  IN IF new = <<>> THEN {Err(s), Ok(RemoveAt(s, t), <<>>)}     \* not schema-shaped
-     ELSE IF d = 0 THEN {Ok(ReplaceAt(s, t, new), <<>>)}
-     ELSE {Ok(ReplaceAt(s, t, new), <<>>), Ok(ReplaceAt(s, t, nd), Rep(d, DUP)), Err(s)}
+  IF new = <<>> THEN {Err(s), Ok(RemoveAt(s, t), <<>>)}     \* not schema-shaped
+  ELSE DupChoices(s, tag, new, {s[t].id}, FALSE, LAMBDA xs : ReplaceAt(s, t, xs))
 
 (* move the elements F (ids, in message order) so that they stand,        *)
 (* contiguous and in that order, immediately before tgt (None = end)      *)
